@@ -33,7 +33,7 @@ func init() {
 		Shards:   shards(8, 16),
 		Timeout:  timeouts(5*time.Minute, 30*time.Minute),
 		MinEvals: 300,
-		Required: []string{"server_direct_listings", "server_session_listings", "client_listings", "lookahead_events", "bad_offset_probes", "final_empty_reads"},
+		Required: []string{"server_direct_listings", "server_session_listings", "client_listings", "lookahead_events", "bad_offset_probes", "final_empty_reads", "transient_iterator_errors"},
 		Run:      runC17,
 	})
 }
@@ -191,6 +191,7 @@ func drainC17(w *mon.W, rd dirReader, c *c17case, via, desc string) {
 	entIdx := 0 // index of the first entry not yet delivered
 	lookahead := false
 	steps := 0
+	transientSeen := 0
 	for {
 		steps++
 		if steps > len(c.entries)+10 {
@@ -214,6 +215,16 @@ func drainC17(w *mon.W, rd dirReader, c *c17case, via, desc string) {
 		cnt := next()
 		buf := make([]byte, cnt)
 		n, err := rd.Read(ctx, buf, off)
+		if err != nil && via == "readdir-transient-error" && err == errTransient && transientSeen < 3 {
+			// the underlying iterator failed once: whatever whole entries the read
+			// delivered count, and the listing continues at the running offset
+			transientSeen++
+			w.Count("transient_iterator_errors", 1)
+			err = nil
+			if n == 0 {
+				continue
+			}
+		}
 		if err != nil {
 			w.Violate("mismatch", "C17:read-error:"+via, fmt.Sprintf("read of %d bytes at running offset %d failed: %v; %s", cnt, off, err, desc), nil)
 			return
@@ -313,7 +324,22 @@ func runC17(w *mon.W) {
 					return d, nil
 				})
 			}
-			drainC17(w, rd, c, "readdir", desc)
+			if w.Rng.Intn(4) == 0 && len(c.entries) > 2 {
+				// an iterator that fails once, transiently, between two batches
+				it := fs.iterator()
+				failAt := 1 + w.Rng.Intn(3)
+				calls := 0
+				rd = p9p.NewReaddir(codec, func(ctx context.Context) ([]p9p.Dir, error) {
+					calls++
+					if calls == failAt {
+						return nil, errTransient
+					}
+					return it(ctx)
+				})
+				drainC17(w, rd, c, "readdir-transient-error", desc)
+			} else {
+				drainC17(w, rd, c, "readdir", desc)
+			}
 			w.Count("server_direct_listings", 1)
 		case 1: // through the server session
 			s := p9p.SFileSys(fs)
@@ -336,6 +362,7 @@ func runC17(w *mon.W) {
 }
 
 var errEOF = io.EOF
+var errTransient = errors.New("transient iterator failure")
 
 // clientListC17 lists the directory through CFileSys(CSession) over a served connection
 // whose negotiated msize is forced to M.
